@@ -832,6 +832,45 @@ func propC07(r *Run, w *World) {
 		}
 	}
 
+	// R11: the decoder looks at every bit of the mask
+	r.Rule("C07.R11", "every installed syscall is listed: the loops of fromAuditRuleData that append to syscalls are counted loops from 0 by 1 with constant bounds whose trip counts multiply to syscallBitmaskSize*32 (64 words x 32 bits, or one loop over 2048 numbers), so no mask bit the encoder can set is skipped by the decoder", 1)
+	{
+		var app *ssa.Store
+		for _, st := range storesOf(x.fromARD) {
+			if fa, ok := st.Addr.(*ssa.FieldAddr); ok && fieldName(fieldOfAddr(fa)) == "syscalls" {
+				if _, isApp := isAppendCall(st.Val); isApp {
+					app = st
+				}
+			}
+		}
+		words, _, _ := w.constUint("rule", "syscallBitmaskSize")
+		if app == nil {
+			r.Fail("fromAuditRuleData syscall list", x.fromARD.Pos(), "no append to syscalls found in the decoder")
+		} else {
+			prod := int64(1)
+			var shape []string
+			okAll := true
+			n := 0
+			for _, l := range NaturalLoops(x.fromARD) {
+				if !l.Body[app.Block()] {
+					continue
+				}
+				n++
+				k, ok := tripCount(l)
+				if !ok {
+					okAll = false
+					shape = append(shape, "?")
+					continue
+				}
+				prod *= k
+				shape = append(shape, fmt.Sprint(k))
+			}
+			want := int64(words) * 32
+			r.Check(okAll && n >= 1 && prod == want, "fromAuditRuleData examines every mask bit", app.Pos(), strings.Join(shape, " x "),
+				fmt.Sprintf("the loops around the append to syscalls run %s = %d times (constant trip counts found: %v), the mask has %d bits: a syscall the encoder installs in a skipped bit is never listed, and the listing re-encodes to a different mask", strings.Join(shape, " x "), prod, okAll, want))
+		}
+	}
+
 	// R4
 	r.Rule("C07.R4", "encoder-accepted domains are total in the decoder: a syscall number without a name in the table is listed by number (the encoder accepts raw numbers), not reported as an error", 1)
 	{
@@ -1842,6 +1881,73 @@ func (x *rulePkg) scope() []*ssa.Function {
 	}
 	sort.Slice(fs, func(i, j int) bool { return fnName(fs[i]) < fnName(fs[j]) })
 	return fs
+}
+
+// tripCount: the number of iterations of a counted loop `for i := s; i < K; i++` (also the
+// rotated range form `φ{-1|inc}+1 < K`) with constant s, K and step 1.
+func tripCount(l *Loop) (int64, bool) {
+	for b := range l.Body {
+		ifi, ok := b.Instrs[len(b.Instrs)-1].(*ssa.If)
+		if !ok || (l.Body[b.Succs[0]] && l.Body[b.Succs[1]]) {
+			continue
+		}
+		if !l.Body[b.Succs[0]] {
+			continue // the loop must continue on the true edge of i < K
+		}
+		c, ok := ifi.Cond.(*ssa.BinOp)
+		if !ok || (c.Op != token.LSS && c.Op != token.LEQ) {
+			continue
+		}
+		k, isK := constInt(c.Y)
+		if !isK {
+			continue
+		}
+		if c.Op == token.LEQ {
+			k++
+		}
+		var phi *ssa.Phi
+		off := int64(0)
+		switch v := c.X.(type) {
+		case *ssa.Phi:
+			phi = v
+		case *ssa.BinOp:
+			if p, isP := v.X.(*ssa.Phi); isP && v.Op == token.ADD {
+				if d, isD := constInt(v.Y); isD {
+					phi, off = p, d
+				}
+			}
+		}
+		if phi == nil || phi.Block() != l.Header {
+			continue
+		}
+		start, okS := int64(0), false
+		step := true
+		for i, e := range phi.Edges {
+			if l.Body[l.Header.Preds[i]] {
+				inc, isB := e.(*ssa.BinOp)
+				if !isB || inc.Op != token.ADD || inc.X != ssa.Value(phi) {
+					step = false
+					continue
+				}
+				if d, isD := constInt(inc.Y); !isD || d != 1 {
+					step = false
+				}
+			} else if s0, isC := constInt(e); isC {
+				start, okS = s0, true
+			} else {
+				return 0, false
+			}
+		}
+		if !okS || !step {
+			return 0, false
+		}
+		n := k - (start + off)
+		if n < 0 {
+			n = 0
+		}
+		return n, true
+	}
+	return 0, false
 }
 
 // decoderStringFields: the field names for which one iteration of fromAuditRuleData's decoding
